@@ -681,4 +681,47 @@ def runVerify [DecidableEq κ] (key : VQ → κ) : List κ → List VQ → List 
   | _, [] => []
   | cache, q :: t => (cachedVerify key cache q).1 :: runVerify key (cachedVerify key cache q).2 t
 
+/-! ## B.4 `Basin.verify_basin`, statement by statement
+
+One `Basin` object carries the referrer's identifier (`measurement_identifier`, fixed at
+construction), its mapping mode, the dataset it loads (identifier `basRid`, loaded once) and the
+flag `_measurement_identifier_verified`.  `verifyBasin` is one call of
+`verify_basin(run_identifier=runId)` (availability check requested, the default): it returns the
+answer and the new flag.  `isAvail` is what `is_available()` answers at that moment. -/
+
+def verifyBasin (refRid basRid : Option Ident) (mapped : Bool) (isAvail runId verified : Bool) :
+    Bool × Bool :=
+  if runId && isAvail then
+    let verified' :=
+      if verified then true                       -- `if not self._measurement_identifier_verified`
+      else match refRid with
+        | none => true                            -- nothing presented: no check
+        | some r =>
+          match basRid with
+          | none => false                         -- F22
+          | some b => if mapped then b.isPrefixOf r    -- `str.startswith(r, b)`
+                      else r == b                      -- `str.__eq__(r, b)`
+    (verified' && isAvail, verified')
+  else (isAvail, verified)                        -- `check_rid = True`
+
+/-- a history of calls `(isAvail, runId)` on one `Basin` object -/
+def runVerifyBasin (refRid basRid : Option Ident) (mapped : Bool) : Bool → List (Bool × Bool) → List Bool
+  | _, [] => []
+  | v, c :: t =>
+    (verifyBasin refRid basRid mapped c.1 c.2 v).1 ::
+      runVerifyBasin refRid basRid mapped (verifyBasin refRid basRid mapped c.1 c.2 v).2 t
+
+/-! ## B.5 the order of `ds.basins`
+
+`basinOrder` is the list `ds.basins` of an opened dataset in order: definitions sorted by
+`basin_priority_sorted_key` (stable), filtered by `basins_retrieve`, one entry per remote URL, the
+first verified candidate for file-type definitions.  Entry = (key, format, mapping, location of
+the dataset behind it if it can be opened). -/
+
+def basinOrder (w : World) (tg : Bool) (node : Node) (ign : List Nat) :
+    List (Nat × BFormat × Option Nat × Option Loc) :=
+  (((sortBy prioLe node.file.basins).flatMap
+      (instantiate w tg node ign fun _ => Res.empty)).filter OB.listed).map
+    fun o => (o.d.key, o.d.format, o.d.mapping, o.node.bind (·.at_))
+
 end DclabModel.Basin
